@@ -74,7 +74,49 @@ def minimise(pool_req, mod, prop, doc, res, max_runs=120):
     return cur, cur_res, runs
 
 
-def write_replay(prop, doc, res, minimised_from=None, shrink_runs=0):
+def process_prefix(docs, results, r):
+    """Documents the same worker interpreter ran before the run with result r, in order."""
+    w, q = r.get("_worker"), r.get("_wseq", 0)
+    if w is None or q is None or q < 0:
+        return []
+    start = max([x.get("_wseq", 0) for x in results if x.get("_worker") == w and x.get("_wseq", 0) < 0] + [-1])
+    pre = [(x.get("_wseq"), d) for d, x in zip(docs, results) if x.get("_worker") == w and x.get("_wseq") is not None and 0 <= x.get("_wseq") < q]
+    # only the runs since the last restart of that interpreter
+    restarts = [x.get("_wseq") for x in results if x.get("_worker") == w and x.get("_wseq") == -1]
+    pre.sort(key=lambda t: t[0])
+    return [d for _, d in pre]
+
+
+def minimise_prefix(prop, prefix, doc, res, scratch, max_runs=14):
+    """Does prefix + doc reproduce in one fresh interpreter? If so drop chunks of the prefix greedily."""
+
+    def fails(pre):
+        out = runner.run_fresh_sequence([{"prop": prop, "doc": p, "wall_cap": 120} for p in pre] + [{"prop": prop, "doc": doc, "wall_cap": 300}], scratch=scratch)
+        last = out[-1]
+        return last.get("outcome") == "violation" and last.get("monitor") == res.get("monitor")
+
+    if not prefix or not fails(prefix):
+        return prefix, False
+    runs = 1
+    cur = list(prefix)
+    chunk = max(1, len(cur) // 2)
+    while chunk >= 1 and runs < max_runs and len(cur) > 1:
+        i = 0
+        shrunk = False
+        while i < len(cur) and runs < max_runs:
+            cand = cur[:i] + cur[i + chunk :]
+            runs += 1
+            if cand and fails(cand):
+                cur = cand
+                shrunk = True
+            else:
+                i += chunk
+        if not shrunk or chunk == 1:
+            chunk //= 2
+    return cur, True
+
+
+def write_replay(prop, doc, res, minimised_from=None, shrink_runs=0, prefix=None):
     os.makedirs(os.path.join(HERE, "replays"), exist_ok=True)
     name = f"{prop}-{doc.get('seed', 0)}-{res.get('monitor')}.json"
     path = os.path.join(HERE, "replays", name)
@@ -89,6 +131,8 @@ def write_replay(prop, doc, res, minimised_from=None, shrink_runs=0):
     }
     if minimised_from is not None:
         rec["unminimised_doc"] = minimised_from
+    if prefix:
+        rec["prefix_docs"] = prefix  # run first, in this order, in the same interpreter
     with open(path, "w") as f:
         json.dump(kernel.jsonable(rec), f, indent=1)
     return path
@@ -97,7 +141,10 @@ def write_replay(prop, doc, res, minimised_from=None, shrink_runs=0):
 def replay(prop, path):
     rec = json.load(open(path))
     doc = rec["doc"]
-    res = runner.run_fresh({"prop": prop, "doc": doc, "wall_cap": 300})
+    if rec.get("prefix_docs"):
+        res = runner.run_fresh_sequence([{"prop": prop, "doc": p, "wall_cap": 120} for p in rec["prefix_docs"]] + [{"prop": prop, "doc": doc, "wall_cap": 300}])[-1]
+    else:
+        res = runner.run_fresh({"prop": prop, "doc": doc, "wall_cap": 300})
     print(json.dumps({k: res.get(k) for k in ("outcome", "monitor", "detail", "site", "fault", "digest", "reason")}, indent=1))
     if res.get("outcome") == "violation":
         same = res.get("monitor") == rec["violation"]["monitor"]
@@ -196,6 +243,18 @@ def check(prop, tier, verif_seed, max_runs=None, budget=None, nworkers=None, wri
             if not (conf.get("outcome") == "violation" and conf.get("monitor") == mr.get("monitor")):
                 path = write_replay(prop, d, r)
                 lines.append(f"HARNESS-NOTE: minimised replay did not reproduce in a fresh process; unminimised document reported")
+                conf2 = runner.run_fresh({"prop": prop, "doc": d, "wall_cap": 300}, scratch=scratch)
+                if not (conf2.get("outcome") == "violation" and conf2.get("monitor") == r.get("monitor")):
+                    # not a function of the document alone: state left in the interpreter by earlier
+                    # runs. Replay = the earlier documents of that interpreter, then this one.
+                    prefix = process_prefix(docs, results, r)
+                    pre, ok_ = minimise_prefix(prop, prefix, d, r, scratch)
+                    if ok_:
+                        path = write_replay(prop, d, r, prefix=pre)
+                        lines.append(f"HARNESS-NOTE: the violation needs {len(pre)} earlier run(s) in the same interpreter (process-global state); the replay file holds them as 'prefix_docs'")
+                    else:
+                        lines.append("HARNESS-NOTE: the violation did not reproduce in a fresh interpreter, not even after the earlier runs of its worker")
+                mr = r
             lines.append(f"VIOLATION property={prop} replay={path}")
             lines.append(f"  monitor={mr.get('monitor')} site={mr.get('site')} fault={mr.get('fault')} runs={len(lst)} detail={mr.get('detail')}")
             reported.append({"monitor": mr.get("monitor"), "site": mr.get("site"), "fault": mr.get("fault"), "replay": path, "runs": len(lst)})
